@@ -269,3 +269,103 @@ Lemma ex_fresh_values :
   | _, _ => (0, 0, true)
   end = (6, 6, false).
 Proof. vm_compute. reflexivity. Qed.
+
+(** ** The hypotheses of [hspec] for quantification, restriction and substitution are satisfiable *)
+
+Lemma bfun_eq_enum_spec : forall s r n (F : bfun), WF s -> nlevels s = n ->
+  (forall a a', (forall v, (v < n)%nat -> a v = a' v) -> F a = F a') ->
+  bfun_eqb n (bfun_of s r) F = true -> forall a, bfun_of s r a = F a.
+Proof.
+  intros s r n F H N Hloc Hb a. destruct (all_asgs_cover n a) as [a' [Hin Hag]].
+  unfold bfun_eqb in Hb. rewrite forallb_forall in Hb. specialize (Hb a' Hin). apply eqb_prop in Hb.
+  rewrite (bfun_of_local s r a a' H) by (rewrite N; exact Hag). rewrite Hb. symmetry. apply Hloc. exact Hag.
+Qed.
+
+Lemma conj_vars_local : forall vs n, (forall v, In v vs -> (v < n)%nat) ->
+  forall a a', (forall v, (v < n)%nat -> a v = a' v) -> conj_vars vs a = conj_vars vs a'.
+Proof.
+  intros vs n Hlt a a' Hag. unfold conj_vars. induction vs as [|v r IH]; [reflexivity|]. simpl.
+  rewrite (Hag v (Hlt v (or_introl eq_refl))), IH; [reflexivity|]. intros w Hw. apply Hlt. right. exact Hw.
+Qed.
+
+Lemma cube_fun_local : forall lits n, (forall p, In p lits -> (fst p < n)%nat) ->
+  forall a a', (forall v, (v < n)%nat -> a v = a' v) -> cube_fun lits a = cube_fun lits a'.
+Proof.
+  intros lits n Hlt a a' Hag. unfold cube_fun. induction lits as [|p r IH]; [reflexivity|]. simpl.
+  rewrite (Hag (fst p) (Hlt p (or_introl eq_refl))), IH; [reflexivity|]. intros w Hw. apply Hlt. right. exact Hw.
+Qed.
+
+(** slot 1 holds the variable set {x1}; slot 10 the cube x0 /\ ~x2 *)
+Lemma ex_enum_vars : bfun_eqb 4 (bfun_of (h_s acache ex_stA) (slot_ref acache ex_stA 1)) (conj_vars [1%nat]) = true.
+Proof. vm_compute. reflexivity. Qed.
+Lemma ex_enum_cube : bfun_eqb 4 (bfun_of (h_s acache ex_stA) (slot_ref acache ex_stA 10))
+                                (cube_fun [(0%nat, true); (2%nat, false)]) = true.
+Proof. vm_compute. reflexivity. Qed.
+Lemma ex_slotA1 : hslot acache ex_stA 1 = Some (slot_ref acache ex_stA 1).
+Proof. vm_compute. reflexivity. Qed.
+Lemma ex_slotA10 : hslot acache ex_stA 10 = Some (slot_ref acache ex_stA 10).
+Proof. vm_compute. reflexivity. Qed.
+
+Lemma ex_holds_vars : holds acache ex_stA 1 (conj_vars [1%nat]).
+Proof.
+  exists (slot_ref acache ex_stA 1). split; [exact ex_slotA1|].
+  apply (bfun_eq_enum_spec _ _ 4%nat _ ex_WFA ex_nA); [|exact ex_enum_vars].
+  apply conj_vars_local. intros v [<-|[]]. lia.
+Qed.
+
+Lemma ex_holds_cube : holds acache ex_stA 10 (cube_fun [(0%nat, true); (2%nat, false)]).
+Proof.
+  exists (slot_ref acache ex_stA 10). split; [exact ex_slotA10|].
+  apply (bfun_eq_enum_spec _ _ 4%nat _ ex_WFA ex_nA); [|exact ex_enum_cube].
+  apply cube_fun_local. intros p [<-|[<-|[]]]; simpl; lia.
+Qed.
+
+(** exists x1. (slot 5) *)
+Theorem ex_spec_quant :
+  exists st', stepA ex_stA (HQuant QExists 21 5 1) = Some st' /\
+              holds acache st' 21 (exists_s [1%nat] fA5).
+Proof.
+  destruct (hstep_spec gtA acache ac_get ac_add ac_lossy [] emptyA ex_stA _ 21 _ ex_invA
+              (SpQuant acache ex_stA QExists 21 5 1 fA5 [1%nat] ex_holdsA5 ex_holds_vars
+                 ltac:(intros v [<-|[]]; rewrite ex_nA; lia) ltac:(discriminate)))
+    as [st' [E [_ [_ Hd]]]].
+  exists st'. split; [exact E | exact Hd].
+Qed.
+
+(** (slot 5) restricted to x0 = true, x2 = false *)
+Theorem ex_spec_restrict :
+  exists st', stepA ex_stA (HRestrict 21 5 10) = Some st' /\
+              holds acache st' 21 (restrict_s [(0%nat, true); (2%nat, false)] fA5).
+Proof.
+  destruct (hstep_spec gtA acache ac_get ac_add ac_lossy [] emptyA ex_stA _ 21 _ ex_invA
+              (SpRestrict acache ex_stA 21 5 10 fA5 [(0%nat, true); (2%nat, false)] ex_holdsA5 ex_holds_cube
+                 ltac:(repeat constructor; simpl; intuition discriminate)
+                 ltac:(intros p [<-|[<-|[]]]; rewrite ex_nA; simpl; lia)))
+    as [st' [E [_ [_ Hd]]]].
+  exists st'. split; [exact E | exact Hd].
+Qed.
+
+(** the substitution object created by call 14, applied once more in the final state *)
+Definition ex_rp : hpairs :=
+  match hreg_fn (h_reg acache ex_stA) 0 with Some rp => rp | None => [] end.
+
+Lemma ex_reg0 : hreg_fn (h_reg acache ex_stA) 0 = Some ex_rp.
+Proof. vm_compute. reflexivity. Qed.
+
+Lemma sub_funs_refl : forall s rp, sub_funs s rp (map (fun p : nat * ref => (fst p, bfun_of s (snd p))) rp).
+Proof.
+  intros s rp. unfold sub_funs. induction rp as [|p r IH]; simpl; constructor; [|exact IH].
+  split; [reflexivity | intros a; reflexivity].
+Qed.
+
+Theorem ex_spec_subst :
+  exists st', stepA ex_stA (HSubst 21 5 0) = Some st' /\ length ex_rp = 2%nat /\
+    holds acache st' 21
+      (subst_s (map (fun p : nat * ref => (fst p, bfun_of (h_s acache ex_stA) (snd p))) ex_rp) fA5).
+Proof.
+  destruct (hstep_spec gtA acache ac_get ac_add ac_lossy [] emptyA ex_stA _ 21 _ ex_invA
+              (SpSubst acache ex_stA 21 5 0 fA5 ex_rp _ ex_holdsA5
+                 (aext_bfun_of _ ex_WFA _) ex_reg0 (sub_funs_refl _ ex_rp)))
+    as [st' [E [_ [_ Hd]]]].
+  exists st'. split; [exact E|]. split; [vm_compute; reflexivity | exact Hd].
+Qed.
